@@ -762,6 +762,15 @@ class Interp:
 
     def s_While(self, st, fr):
         spec = self.loop_spec(st, fr)
+        if spec is None and st.body and isinstance(st.body[-1], ast.Break) and not st.orelse and not _has_continue(st.body):
+            # `while c: ...; break` runs its body at most once: it is an `if`
+            c = truth(self.ctx, self.eval(st.test, fr))
+            if self.ctx.branch(c, "while-once@%d" % st.lineno):
+                try:
+                    self.exec_block(st.body, fr)
+                except BreakSig:
+                    pass
+            return
         if spec is None:
             # no invariant: only loops that terminate concretely can be executed
             n = 0
@@ -1235,6 +1244,15 @@ class Interp:
             sf = self.ctx.prog.special_forms.get(nm)
             if sf is not None and nm not in fr.locals and fr.fv is None:
                 return sf(self, e, fr)
+        if isinstance(e.func, ast.Attribute) and isinstance(e.func.value, ast.Name) and e.func.value.id == "logger" \
+                and "logger" not in fr.locals:
+            # logger.debug/info/error(...): the call is assumed effect-free, but its ARGUMENTS are evaluated
+            # (they can raise, e.g. cs.getpeername() inside an except handler)
+            for a in e.args:
+                self.eval(a, fr)
+            for k in e.keywords:
+                self.eval(k.value, fr)
+            return None
         f = self.eval(e.func, fr)
         args = []
         kwargs = {}
@@ -1378,6 +1396,18 @@ class Interp:
 
 class _NotPure(Exception):
     pass
+
+
+def _has_continue(body):
+    stack = list(body)
+    while stack:
+        n = stack.pop()
+        if isinstance(n, ast.Continue):
+            return True
+        if isinstance(n, (ast.While, ast.For, ast.FunctionDef, ast.AsyncFunctionDef, ast.Lambda, ast.ClassDef)):
+            continue
+        stack.extend(ast.iter_child_nodes(n))
+    return False
 
 
 def _pure(e):
